@@ -226,6 +226,13 @@ func (st *asmState) write(in asmInstr, opnd string, v *Term) {
 			st.regs[opnd] = v
 		case 32:
 			st.regs[opnd] = tf.Zext(v, 64)
+		case 8, 16:
+			// 8/16-bit register writes leave the upper bits of the register unchanged
+			old, ok := st.regs[opnd]
+			if !ok {
+				old = st.m.newInput("asm-uninitialised-"+opnd, 64)
+			}
+			st.regs[opnd] = tf.Concat(tf.Extract(old, 63, v.W), v)
 		default:
 			st.unsupported(in, "narrow register write")
 		}
@@ -405,24 +412,24 @@ func (m *Machine) callAsm(fr *Frame, fn *ssa.Function, af *AsmFunc, args []Value
 		case "SUBQ":
 			r := st.setFlagsSub(st.read(in, in.args[1], 64), st.read(in, in.args[0], 64))
 			st.write(in, in.args[1], r)
-		case "ROLL":
+		case "ROLL", "RORL", "ROLQ", "RORQ", "ROLW", "RORW", "ROLB", "RORB":
 			k, ok := evalAsmConst(strings.TrimPrefix(in.args[0], "$"))
 			if !ok || !strings.HasPrefix(in.args[0], "$") {
 				st.unsupported(in, "rotate count")
 			}
-			k &= 31
-			x := st.read(in, in.args[1], 32)
+			w := map[byte]uint8{'L': 32, 'Q': 64, 'W': 16, 'B': 8}[in.op[3]]
+			k &= int64(w - 1)
+			if in.op[2] == 'R' && k != 0 {
+				k = int64(w) - k // rotate right by k = rotate left by w-k
+			}
+			x := st.read(in, in.args[1], w)
 			r := x
 			if k != 0 {
-				r = tf.BvOr(tf.Shl(x, tf.Const(32, uint64(k))), tf.Lshr(x, tf.Const(32, uint64(32-k))))
+				r = tf.BvOr(tf.Shl(x, tf.Const(w, uint64(k))), tf.Lshr(x, tf.Const(w, uint64(int64(w)-k))))
 			}
 			st.write(in, in.args[1], r)
 		case "PUNPCKLQDQ":
-			src, okS := st.xregs[in.args[0]]
-			dst, okD := st.xregs[in.args[1]]
-			if !okS || !okD {
-				st.unsupported(in, "uninitialised X register")
-			}
+			src, dst := st.xreg(in.args[0]), st.xreg(in.args[1])
 			st.xregs[in.args[1]] = [2]*Term{dst[0], src[0]}
 		case "MOVOU":
 			if isXReg(in.args[1]) {
@@ -437,20 +444,13 @@ func (m *Machine) callAsm(fr *Frame, fn *ssa.Function, af *AsmFunc, args []Value
 				if !ok {
 					st.unsupported(in, "destination")
 				}
-				x, ok := st.xregs[in.args[0]]
-				if !ok {
-					st.unsupported(in, "uninitialised X register")
-				}
+				x := st.xreg(in.args[0])
 				st.storeBytes(in, addr, append(st.bytesOf(x[0]), st.bytesOf(x[1])...))
 			} else {
 				st.unsupported(in, "operands")
 			}
 		case "PXOR":
-			src, okS := st.xregs[in.args[0]]
-			dst, okD := st.xregs[in.args[1]]
-			if !okS || !okD {
-				st.unsupported(in, "uninitialised X register")
-			}
+			src, dst := st.xreg(in.args[0]), st.xreg(in.args[1])
 			st.xregs[in.args[1]] = [2]*Term{tf.BvXor(dst[0], src[0]), tf.BvXor(dst[1], src[1])}
 		case "JMP":
 			jump(tf.True)
@@ -483,3 +483,16 @@ func (m *Machine) callAsm(fr *Frame, fn *ssa.Function, af *AsmFunc, args []Value
 }
 
 var _ = fmt.Sprintf
+
+// xreg reads a vector register. A register the routine has not written holds whatever the caller left in it: an
+// arbitrary value, i.e. two fresh solver variables (a routine whose result depends on them is wrong for almost all of
+// their values, and the solver picks one that shows it).
+func (st *asmState) xreg(name string) [2]*Term {
+	if x, ok := st.xregs[name]; ok {
+		return x
+	}
+	x := [2]*Term{st.m.newInput("asm-uninitialised-"+name+"-lo", 64), st.m.newInput("asm-uninitialised-"+name+"-hi", 64)}
+	st.xregs[name] = x
+	st.m.res.Stubs["asm: a vector register read before the routine wrote it holds an arbitrary value"]++
+	return x
+}
